@@ -262,6 +262,21 @@ static bool apply(Inst<W, Width> &x, ref::Big &r, const Op &op, std::string &err
             *x.p &= w;
             return true;
         }
+        case 'c': { // copy-assign from another BigInt that holds a (small) word value
+            B t(w);
+            *x.p = t;
+            r    = ref::Big((u128)w);
+            return true;
+        }
+        case 'm': { // move-assign from another BigInt that holds a word value
+            B t(w);
+            *x.p = std::move(t);
+            r    = ref::Big((u128)w);
+            if (!t.IsZero()) {
+                err = "moved-from BigInt is not zero";
+            }
+            return true;
+        }
         case 'C': { // copy construct + copy assign over a dirty target
             B  c(*x.p);
             B  d((W)0x5A);
@@ -311,7 +326,7 @@ static std::vector<Op> alphabet() {
     constexpr unsigned WB   = I::WB;
     constexpr unsigned BITS = I::WORDS * WB;
     auto               os   = operands<W>();
-    for (char k : {'=', '+', '-', '*', '/', '|', '&'}) {
+    for (char k : {'=', '+', '-', '*', '/', '|', '&', 'c', 'm'}) {
         for (uint64_t o : os) {
             ops.push_back({k, o});
         }
@@ -347,7 +362,7 @@ struct BSys {
             }
             // complete alphabet of the 8-bit instantiation: every operand, every shift, wide operands on a stride
             std::vector<Op> v;
-            for (char k : {'=', '+', '-', '*', '/', '|', '&'}) {
+            for (char k : {'=', '+', '-', '*', '/', '|', '&', 'c', 'm'}) {
                 for (unsigned a = 0; a < 256; a++) {
                     v.push_back({k, a});
                 }
